@@ -6,12 +6,12 @@ Mirrors forml/project/_distribution.py
     with `modules=json.dumps(dict(self.modules))` (name, version text and package are pasted raw between
     double quotes);
   * `Manifest.read`: the file is imported as a Python module, i.e. the four right-hand sides are read back as
-    Python literals (`"…"` string literals; the JSON object as a dict display of string literals);
-  * `Package.create` (`writeall`/`valid`): which files of the source tree enter the archive;
-  * `Package.install`: zip-safe (`all(PYSFX.search(n))`) → the archive is copied, otherwise extracted.
+    Python literals (`"…"` string literals; the JSON object as a dict display of string literals).
+(package content — `Package.create` / `install` — and component loading are in ForML.Model.ManifestLoad, histories
+over locations in ForML.Model.ManifestStore).
 
 The version is carried as its normalised text `str(Release.Key)` (`ForML.Keys.vstr`); that
-`Release.Key(str(v)) == v` is a property of `packaging` (sampled by the harness, not modelled).
+`Release.Key(str(v)) == v` is `C18_version_str_roundtrip` (ForML.Model.KeysValue models the PEP 440 text parser).
 Python literal reading is modelled for the escapes listed in `pyEsc`; `\x`, octal, `\N`, `\U` are
 `outOfModel` (never produced by `json.dumps`).
 
@@ -210,48 +210,5 @@ def read (t : List Nat) : Except ReadErr Manifest :=
                 match pyDict t with
                 | .error e => .error e
                 | .ok modules => .ok { name, version, package, modules }
-
-/-! ### package content -/
-
-/-- a source tree: files and directories by name -/
-inductive Node where
-  | file (name : String)
-  | dir (name : String) (children : List Node)
-  deriving Repr
-
-def descriptor : String := "__4ml__.py"
-
-/-- `Path.suffix` of a file name -/
-def suffixOf (name : String) : String :=
-  match (name.splitOn ".").reverse with
-  | [] => ""
-  | [_] => ""
-  | last :: rest =>
-    -- a leading dot only (".hidden") or a trailing dot ("a.") has no suffix
-    if last.isEmpty then "" else if rest.all (·.isEmpty) then "" else "." ++ last
-
-/-- `valid(target)`: `file.name != '__pycache__' and file.suffix != '.dist-info' and file != descriptor`
-(`target` is the path relative to the root; only a root-level `__4ml__.py` equals `descriptor`) -/
-def valid (atRoot : Bool) (name : String) : Bool :=
-  name != "__pycache__" && suffixOf name != ".dist-info" && !(atRoot && name == descriptor)
-
-mutual
-/-- `writeall`: relative paths of the archived files -/
-def files (atRoot : Bool) (pfx : String) : Node → List String
-  | .file n => if valid atRoot n then [pfx ++ n] else []
-  | .dir n cs => if valid atRoot n then filesL false (pfx ++ n ++ "/") cs else []
-def filesL (atRoot : Bool) (pfx : String) : List Node → List String
-  | [] => []
-  | c :: cs => files atRoot pfx c ++ filesL atRoot pfx cs
-end
-
-/-- archive member names of `Package.create(source, …)`: the manifest first, then the tree -/
-def archive (root : List Node) : List String := descriptor :: filesL true "" root
-
-/-- `PYSFX = re.compile(r'\.py[co]?$')` -/
-def pySuffix (n : String) : Bool := n.endsWith ".py" || n.endsWith ".pyc" || n.endsWith ".pyo"
-
-/-- `install`: zip-safe archives are copied as a file, others are extracted -/
-def zipSafe (names : List String) : Bool := names.all pySuffix
 
 end ForML.Manifest
